@@ -116,6 +116,8 @@ typedef struct obs {
     obs_item it[MAXOBS];
     unsigned k;
     unsigned dropped;
+    int light; /* scalars only (byte observations keep their length): used to
+                  probe unobserved in-place history calls */
 } obs;
 
 static void ob_u(obs *o, const char *name, uint64_t v) {
@@ -138,6 +140,10 @@ static void ob_b(obs *o, const char *name, const void *p, size_t n) {
     }
     if (o->k >= MAXOBS) {
         o->dropped++;
+        return;
+    }
+    if (o->light) {
+        ob_u(o, name, n);
         return;
     }
     uint8_t *c = (uint8_t *)malloc(n ? n : 1);
@@ -338,11 +344,21 @@ typedef struct tgt {
     unsigned kind;
     unsigned p1, p2;
     unsigned size_class;
-    uint64_t *v; /* integer array, conforming to kind_flags(kind) */
+    uint64_t *v; /* integer array, conforming to kind_flags(kind); after
+                    tgt_prepare() it has n + 1 slots (slot n: the element an
+                    "extended view" of the same pointer sees) */
     size_t n;
+    /* buffers that keep their ADDRESS for the whole case (all executions and
+     * all in-place history steps): the encoded form (the decoders' input) and
+     * the narrowed / converted input of the 32-bit, double and 16-bit codecs.
+     * A cache keyed on an input pointer can only go stale when the same
+     * address is presented again with other contents. */
+    uint8_t *enc;
+    size_t enc_cap;
+    void *aux;
     uint64_t sv[4]; /* scalar values */
     unsigned nsv;
-    char desc[200];
+    char desc[320];
 } tgt;
 
 static int cmp_u64(const void *a, const void *b) {
@@ -379,7 +395,47 @@ static void conform(uint64_t *v, size_t n, unsigned flags) {
 
 static void tgt_free(tgt *t) {
     free(t->v);
+    free(t->enc);
+    free(t->aux);
     t->v = NULL;
+    t->enc = NULL;
+    t->aux = NULL;
+}
+
+#define BITMAP_CAP (9 + 4 * 32768 + 8192 + 64)
+
+/* once the final element count of a target is known: the extra slot and the
+ * address-stable buffers */
+static void tgt_prepare(tgt *t) {
+    if (t->kind >= K_SC_TAGGED) {
+        return;
+    }
+    const size_t n = t->n;
+    uint64_t *nv = (uint64_t *)realloc(t->v, (n + 1) * sizeof(uint64_t));
+    if (!nv) {
+        abort();
+    }
+    t->v = nv;
+    nv[n] = nv[(n - 1) / 2] + 1;
+    t->enc_cap = t->kind == K_BITMAP ? BITMAP_CAP : (n + 1) * 27 + 8300;
+    t->enc = (uint8_t *)malloc(t->enc_cap);
+    t->aux = malloc((n + 2) * sizeof(uint64_t));
+    if (!t->enc || !t->aux) {
+        abort();
+    }
+    memset(t->aux, 0, (n + 2) * sizeof(uint64_t));
+}
+
+/* the target's encoded-form buffer, pre-filled with the paint pattern of the
+ * execution over the part this codec may use */
+static uint8_t *encbuf(const ex *x, const tgt *t, size_t cap) {
+    if (cap > t->enc_cap) {
+        fprintf(stderr, "c15: encoded-form buffer too small (%zu > %zu)\n", cap,
+                t->enc_cap);
+        abort();
+    }
+    fill_pat(t->enc, cap, x->word);
+    return t->enc;
 }
 
 /* kind from a selector byte: the metadata-taking codecs get extra weight */
@@ -445,7 +501,7 @@ static void parse_args(vf_rd *r, tgt *t, unsigned kind, int history) {
 static void t_for(ex *x, const tgt *t) {
     const size_t n = t->n;
     const int batch = (t->p1 >> 1) & 1;
-    uint8_t *dst = mkbuf(x, n * 8 + 64);
+    uint8_t *dst = encbuf(x, t, n * 8 + 64);
     varintFORMeta m;
     PREFILL(x, m);
     if (t->p1 & 1) {
@@ -495,7 +551,6 @@ static void t_for(ex *x, const tgt *t) {
     ob_u(x->o, "for.block.count", bc);
     ob_b(x->o, "for.block.values", out, (bc < n ? bc : n) * sizeof(uint64_t));
     free(out);
-    free(dst);
 }
 
 static void t_pfor(ex *x, const tgt *t) {
@@ -503,14 +558,13 @@ static void t_pfor(ex *x, const tgt *t) {
                                     VARINT_PFOR_THRESHOLD_90,
                                     VARINT_PFOR_THRESHOLD_99};
     const size_t n = t->n;
-    uint8_t *dst = mkbuf(x, n * 27 + 128);
+    uint8_t *dst = encbuf(x, t, n * 27 + 128);
     varintPFORMeta m;
     PREFILL(x, m);
     PAINT(x);
     size_t len = varintPFOREncode(dst, t->v, (uint32_t)n, thr[t->p1 % 3], &m);
     ob_u(x->o, "pfor.enc.len", len);
     if (len == 0) {
-        free(dst);
         return;
     }
     ob_b(x->o, "pfor.enc.bytes", dst, len);
@@ -545,12 +599,11 @@ static void t_pfor(ex *x, const tgt *t) {
     ob_u(x->o, "pfor.readmeta.ret", hb);
     OBS_PFORMETA(x, "pfor.readmeta", rm, 0);
     free(out);
-    free(dst);
 }
 
 static void t_delta(ex *x, const tgt *t) {
     const size_t n = t->n;
-    uint8_t *dst = mkbuf(x, n * 9 + 64);
+    uint8_t *dst = encbuf(x, t, n * 9 + 64);
     uint64_t *out = mkvals(x, n);
     size_t len, used;
     if (t->kind == K_DELTA_S) {
@@ -569,12 +622,11 @@ static void t_delta(ex *x, const tgt *t) {
     ob_u(x->o, "delta.dec.used", used);
     ob_b(x->o, "delta.dec.values", out, n * sizeof(uint64_t));
     free(out);
-    free(dst);
 }
 
 static void t_group(ex *x, const tgt *t) {
     const size_t n = t->n > 64 ? 64 : t->n;
-    uint8_t *dst = mkbuf(x, 1 + 16 + 64 * 8 + 64);
+    uint8_t *dst = encbuf(x, t, 1 + 16 + 64 * 8 + 64);
     PAINT(x);
     size_t len = varintGroupEncode(dst, t->v, (uint8_t)n);
     ob_u(x->o, "group.enc.len", len);
@@ -600,18 +652,16 @@ static void t_group(ex *x, const tgt *t) {
     ob_u(x->o, "group.getsize", varintGroupGetSize(dst));
     ob_u(x->o, "group.getfieldwidth",
          (uint64_t)varintGroupGetFieldWidth(dst, (uint8_t)(t->p2 % n)));
-    free(dst);
 }
 
 static void t_dict(ex *x, const tgt *t) {
     const size_t n = t->n;
-    uint8_t *dst = mkbuf(x, n * 13 + 128);
+    uint8_t *dst = encbuf(x, t, n * 13 + 128);
     size_t len;
     if (t->kind == K_DICT_PREBUILT) {
         PAINT(x);
         varintDict *d = varintDictCreate();
         if (!d) {
-            free(dst);
             return;
         }
         PAINT(x);
@@ -619,7 +669,6 @@ static void t_dict(ex *x, const tgt *t) {
         ob_u(x->o, "dict.build.rc", (uint64_t)(int64_t)rc);
         if (rc != 0) {
             varintDictFree(d);
-            free(dst);
             return;
         }
         ob_u(x->o, "dict.size", d->size);
@@ -660,7 +709,6 @@ static void t_dict(ex *x, const tgt *t) {
     }
     ob_u(x->o, "dict.enc.len", len);
     if (len == 0) {
-        free(dst);
         return;
     }
     ob_b(x->o, "dict.enc.bytes", dst, len);
@@ -680,7 +728,6 @@ static void t_dict(ex *x, const tgt *t) {
         vf_lib_free(alloc);
     }
     free(out);
-    free(dst);
 }
 
 #define OBS_RLEMETA(x, pfx, m)                                                 \
@@ -694,7 +741,7 @@ static void t_dict(ex *x, const tgt *t) {
 static void t_rle(ex *x, const tgt *t) {
     const size_t n = t->n;
     const int hdr = t->kind == K_RLE_HDR;
-    uint8_t *dst = mkbuf(x, n * 18 + 64);
+    uint8_t *dst = encbuf(x, t, n * 18 + 64);
     varintRLEMeta m;
     PREFILL(x, m);
     varintRLEMeta am;
@@ -727,13 +774,12 @@ static void t_rle(ex *x, const tgt *t) {
         ob_u(x->o, "rle.getruncount", varintRLEGetRunCount(dst, len));
     }
     free(out);
-    free(dst);
 }
 
 static void t_elias(ex *x, const tgt *t) {
     const size_t n = t->n;
     const int delta = t->kind == K_ELIAS_D;
-    uint8_t *dst = mkbuf(x, n * 16 + 64);
+    uint8_t *dst = encbuf(x, t, n * 16 + 64);
     varintEliasMeta m;
     PREFILL(x, m);
     PAINT(x);
@@ -752,7 +798,6 @@ static void t_elias(ex *x, const tgt *t) {
     ob_u(x->o, "elias.dec.count", c);
     ob_b(x->o, "elias.dec.values", out, (c < n ? c : n) * sizeof(uint64_t));
     free(out);
-    free(dst);
 }
 
 #define OBS_BPMETA(x, m)                                                       \
@@ -766,17 +811,14 @@ static void t_elias(ex *x, const tgt *t) {
 
 static void t_bp128(ex *x, const tgt *t) {
     const size_t n = t->n;
-    uint8_t *dst = mkbuf(x, n * 9 + 128);
+    uint8_t *dst = encbuf(x, t, n * 9 + 128);
     varintBP128Meta m;
     PREFILL(x, m);
     varintBP128Meta *mp = (t->p1 & 1) ? NULL : &m;
     size_t len, c;
     if (t->kind == K_BP128_32 || t->kind == K_BP128_D32) {
-        uint32_t *v32 = (uint32_t *)malloc(n * sizeof(uint32_t));
+        uint32_t *v32 = (uint32_t *)t->aux; /* same address in every call */
         uint32_t *o32 = (uint32_t *)mkbuf(x, n * sizeof(uint32_t));
-        if (!v32) {
-            abort();
-        }
         for (size_t i = 0; i < n; i++) {
             v32[i] = (uint32_t)t->v[i];
         }
@@ -797,7 +839,6 @@ static void t_bp128(ex *x, const tgt *t) {
         ob_u(x->o, "bp128.sorted32", varintBP128IsSorted32(v32, n));
         ob_u(x->o, "bp128.beneficial32", varintBP128IsBeneficial32(v32, n));
         free(o32);
-        free(v32);
     } else {
         uint64_t *out = mkvals(x, n);
         if (t->kind == K_BP128_64) {
@@ -825,16 +866,12 @@ static void t_bp128(ex *x, const tgt *t) {
     if (mp) {
         OBS_BPMETA(x, m);
     }
-    free(dst);
 }
 
 /* doubles are composed from the integer array by bit manipulation only (no
  * libm): p2 selects how */
 static double *make_doubles(const tgt *t) {
-    double *d = (double *)malloc(t->n * sizeof(double));
-    if (!d) {
-        abort();
-    }
+    double *d = (double *)t->aux; /* same address in every call */
     for (size_t i = 0; i < t->n; i++) {
         uint64_t v = t->v[i], u;
         switch ((t->p2 >> 4) & 3) {
@@ -883,7 +920,7 @@ static void t_float(ex *x, const tgt *t) {
                                    9.8e-4, 1e-2, 6.3e-2, 0.5};
     const size_t n = t->n;
     double *d = make_doubles(t);
-    uint8_t *dst = mkbuf(x, n * 27 + 128);
+    uint8_t *dst = encbuf(x, t, n * 27 + 128);
     varintFloatPrecision prec = (varintFloatPrecision)(t->p1 & 3);
     varintFloatEncodingMode mode = (varintFloatEncodingMode)((t->p1 >> 2) % 3);
     size_t len;
@@ -900,8 +937,6 @@ static void t_float(ex *x, const tgt *t) {
     }
     ob_u(x->o, "float.enc.len", len);
     if (len == 0) {
-        free(dst);
-        free(d);
         return;
     }
     ob_b(x->o, "float.enc.bytes", dst, len);
@@ -924,8 +959,6 @@ static void t_float(ex *x, const tgt *t) {
         ob_double(x->o, "float.compose", varintFloatCompose(sg, e, ma & 0xfffffffffffffULL));
     }
     free(out);
-    free(dst);
-    free(d);
 }
 
 static void obs_adaptive_enc_meta(ex *x, const varintAdaptiveMeta *m) {
@@ -941,7 +974,7 @@ static void obs_adaptive_enc_meta(ex *x, const varintAdaptiveMeta *m) {
 
 static void t_adaptive(ex *x, const tgt *t) {
     const size_t n = t->n;
-    uint8_t *dst = mkbuf(x, n * 27 + 8300);
+    uint8_t *dst = encbuf(x, t, n * 27 + 8300);
     varintAdaptiveMeta m;
     PREFILL(x, m);
     varintAdaptiveMeta *mp = (t->p2 & 0x80) ? NULL : &m;
@@ -956,14 +989,13 @@ static void t_adaptive(ex *x, const tgt *t) {
     }
     ob_u(x->o, "adaptive.enc.len", len);
     if (len == 0) {
-        free(dst);
         return;
     }
     ob_b(x->o, "adaptive.enc.bytes", dst, len);
     if (mp) {
         obs_adaptive_enc_meta(x, &m);
     }
-    if (x->o) {
+    if (x->o && !x->o->light) {
         char cls[48];
         snprintf(cls, sizeof(cls), "adaptive.%s.%s",
                  t->kind == K_ADAPT_AUTO ? "selected" : "forced",
@@ -996,7 +1028,6 @@ static void t_adaptive(ex *x, const tgt *t) {
         OBS_PFORMETA(x, "adaptive.readmeta.pfor", rm.encodingMeta.pforMeta, 0);
     }
     free(out);
-    free(dst);
 }
 
 static void t_adaptive_analyze(ex *x, const tgt *t) {
@@ -1025,20 +1056,15 @@ static void t_adaptive_analyze(ex *x, const tgt *t) {
     ob_u(x->o, "stats.avgdelta", varintAdaptiveAvgDelta(t->v, t->n));
 }
 
-#define BITMAP_CAP (9 + 4 * 32768 + 8192 + 64)
 static void t_bitmap(ex *x, const tgt *t) {
     const size_t n = t->n;
-    uint16_t *v16 = (uint16_t *)malloc((n ? n : 1) * sizeof(uint16_t));
-    if (!v16) {
-        abort();
-    }
+    uint16_t *v16 = (uint16_t *)t->aux; /* same address in every call */
     for (size_t i = 0; i < n; i++) {
         v16[i] = (uint16_t)((t->p1 & 4) ? (t->v[i] * 0x9e37u) >> 3 : t->v[i]);
     }
     PAINT(x);
     varintBitmap *vb = varintBitmapCreate();
     if (!vb) {
-        free(v16);
         return;
     }
     if (t->p1 & 1) {
@@ -1064,7 +1090,7 @@ static void t_bitmap(ex *x, const tgt *t) {
     varintBitmapGetStats(vb, &st);
     ob_u(x->o, "bitmap.stats.type", (uint64_t)st.type);
     ob_u(x->o, "bitmap.stats.cardinality", st.cardinality);
-    uint8_t *dst = mkbuf(x, BITMAP_CAP);
+    uint8_t *dst = encbuf(x, t, BITMAP_CAP);
     PAINT(x);
     size_t len = varintBitmapEncode(vb, dst);
     ob_u(x->o, "bitmap.enc.len", len);
@@ -1083,8 +1109,6 @@ static void t_bitmap(ex *x, const tgt *t) {
         varintBitmapFree(back);
     }
     varintBitmapFree(vb);
-    free(dst);
-    free(v16);
 }
 
 /* ---------------------------------------------------------- scalar targets */
@@ -1234,14 +1258,15 @@ static void run_target(ex *x, const tgt *t) {
 }
 
 /* --------------------------------------------------------------- comparison */
-static int obs_compare(vf_report *rep, const tgt *t, const obs *a, const obs *b,
-                       const char *which, const char *paintdesc) {
+static int obs_compare2(vf_report *rep, const tgt *t, const obs *a,
+                        const obs *b, const char *first, const char *which,
+                        const char *paintdesc) {
     if (a->k != b->k) {
         unsigned m = a->k < b->k ? a->k : b->k;
         return vf_fail(rep, kind_name[t->kind], "shape",
-                       "%s: execution (a) produced %u observations, execution "
+                       "%s: %s produced %u observations, "
                        "%s produced %u (first extra: %s) [%s]",
-                       t->desc, a->k, which, b->k,
+                       t->desc, first, a->k, which, b->k,
                        a->k > m ? a->it[m].name : b->it[m].name, paintdesc);
     }
     for (unsigned i = 0; i < a->k; i++) {
@@ -1250,17 +1275,18 @@ static int obs_compare(vf_report *rep, const tgt *t, const obs *a, const obs *b,
         snprintf(site, sizeof(site), "%s", p->name);
         if (p->name != q->name && strcmp(p->name, q->name) != 0) {
             return vf_fail(rep, site, "shape",
-                           "%s: observation %u is '%s' in (a) and '%s' in %s "
+                           "%s: observation %u is '%s' %s and '%s' %s "
                            "[%s]",
-                           t->desc, i, p->name, q->name, which, paintdesc);
+                           t->desc, i, p->name, first, q->name, which,
+                           paintdesc);
         }
         if (!p->copy) {
             if (p->v != q->v) {
                 return vf_fail(rep, site, "value",
-                               "%s: %s = %llu (0x%llx) when called first, "
-                               "%llu (0x%llx) in execution %s [%s]",
+                               "%s: %s = %llu (0x%llx) %s, "
+                               "%llu (0x%llx) %s [%s]",
                                t->desc, p->name, (unsigned long long)p->v,
-                               (unsigned long long)p->v,
+                               (unsigned long long)p->v, first,
                                (unsigned long long)q->v,
                                (unsigned long long)q->v, which, paintdesc);
             }
@@ -1268,9 +1294,8 @@ static int obs_compare(vf_report *rep, const tgt *t, const obs *a, const obs *b,
         }
         if (p->v != q->v) {
             return vf_fail(rep, site, "length",
-                           "%s: %s has %llu bytes when called first, %llu in "
-                           "execution %s [%s]",
-                           t->desc, p->name, (unsigned long long)p->v,
+                           "%s: %s has %llu bytes %s, %llu %s [%s]",
+                           t->desc, p->name, (unsigned long long)p->v, first,
                            (unsigned long long)q->v, which, paintdesc);
         }
         if (p->v && memcmp(p->copy, q->copy, (size_t)p->v) != 0) {
@@ -1280,12 +1305,18 @@ static int obs_compare(vf_report *rep, const tgt *t, const obs *a, const obs *b,
             }
             return vf_fail(rep, site, "bytes",
                            "%s: %s differs at byte offset %zu of %llu: 0x%02x "
-                           "when called first, 0x%02x in execution %s [%s]",
+                           "%s, 0x%02x %s [%s]",
                            t->desc, p->name, off, (unsigned long long)p->v,
-                           p->copy[off], q->copy[off], which, paintdesc);
+                           p->copy[off], first, q->copy[off], which,
+                           paintdesc);
         }
     }
     return 0;
+}
+
+static int obs_compare(vf_report *rep, const tgt *t, const obs *a, const obs *b,
+                       const char *which, const char *paintdesc) {
+    return obs_compare2(rep, t, a, b, "when called first", which, paintdesc);
 }
 
 /* ------------------------------------------------------------------- paints */
@@ -1333,13 +1364,615 @@ static uint64_t paint_word(const paint *p, uint64_t count, unsigned run) {
     }
 }
 
+/* ------------------------------------------------- in-place edit histories */
+/* A history step of this class calls the TARGET's own codec (or another codec
+ * of the same input type) on the TARGET's OWN buffers - same input address,
+ * same encoded-form address, same count or a count-1 / count+1 view of the
+ * same pointer - after 1..4 generated edits of the contents, then restores the
+ * original contents exactly.  A cache keyed on (pointer, count, cheap digest:
+ * sum / xor / first / last element) is invisible to histories that only ever
+ * present other buffers; it goes stale when the address comes back with
+ * different contents and an equal digest.  The decoders see the mirror image:
+ * the edited array is encoded into the target's encoded-form buffer, so they
+ * are given another valid encoding (often of the same length: permutations,
+ * moves inside one width class) at the address of the compared input. */
+enum {
+    E_MOVE = 0, /* v[i] -= d, v[j] += d with wraparound: sum kept */
+    E_SWAP,
+    E_ROTATE,
+    E_REVERSE,
+    E_XORFLIP,  /* same bit flipped in two elements: xor kept */
+    E_INTERIOR, /* first and last element kept */
+    E_SUMXOR,   /* bits exchanged between the two elements of a pair: sum and
+                   xor kept; over all pairs every element changes */
+    E_VIEW,     /* count-1 / count+1 / count elements of the same pointer */
+    E_KINDS
+};
+static const char *const edit_name[E_KINDS] = {
+    "move", "swap", "rotate", "reverse", "xorflip", "interior", "sumxor", "view"};
+
+typedef struct ipedit {
+    uint8_t kind, sub, call, restore, x;
+    uint16_t i, j;
+    uint64_t d;
+} ipedit;
+
+#define MAXEDIT 4
+typedef struct ipstep {
+    unsigned cs;     /* 0,1: target's kind and parameters; 2: target's kind,
+                        own parameters; 3: another codec of the same input
+                        type */
+    unsigned p1, p2; /* own parameters */
+    unsigned ne;
+    ipedit e[MAXEDIT];
+} ipstep;
+
+static unsigned bitlen64(uint64_t v) {
+    unsigned b = 0;
+    while (v) {
+        b++;
+        v >>= 1;
+    }
+    return b;
+}
+
+static size_t ip_index(uint16_t s, size_t m, size_t amin, size_t amax) {
+    if ((s >> 8) & 1) {
+        switch (s & 7) {
+        case 0:
+            return amin;
+        case 1:
+            return amax;
+        case 2:
+            return m - 1;
+        case 3:
+            return m / 2;
+        case 4:
+            return 1 % m;
+        case 5:
+            return m >= 2 ? m - 2 : 0;
+        case 6:
+            return 63 % m;
+        default:
+            return 0;
+        }
+    }
+    return (size_t)(((s >> 9) << 8) | (s & 0xff)) % m;
+}
+
+static void ip_reverse(uint64_t *v, size_t lo, size_t hi) { /* [lo, hi) */
+    while (lo + 1 < hi) {
+        uint64_t t = v[lo];
+        v[lo] = v[hi - 1];
+        v[hi - 1] = t;
+        lo++;
+        hi--;
+    }
+}
+
+/* exchange the bits selected by mode between a and b where they differ: the
+ * multiset of bits per position is kept, so a+b and a^b are unchanged */
+static void ip_pair(uint64_t *a, uint64_t *b, unsigned mode, uint64_t gen) {
+    uint64_t diff = *a ^ *b;
+    if (!diff) {
+        return;
+    }
+    uint64_t top = 1ULL << (bitlen64(diff) - 1);
+    uint64_t m;
+    switch (mode & 3) {
+    case 0:
+        m = top;
+        break;
+    case 1:
+        m = diff & (~diff + 1);
+        break;
+    case 2:
+        m = diff & gen;
+        break;
+    default:
+        m = diff & ~top;
+        break;
+    }
+    if (!m) {
+        m = top;
+    }
+    *a ^= m;
+    *b ^= m;
+}
+
+static void ip_apply(uint64_t *v, size_t m, const ipedit *e) {
+    if (m < 2) {
+        return;
+    }
+    uint64_t mn = v[0], mx = v[0];
+    size_t amin = 0, amax = 0;
+    for (size_t k = 1; k < m; k++) {
+        if (v[k] < mn) {
+            mn = v[k];
+            amin = k;
+        }
+        if (v[k] > mx) {
+            mx = v[k];
+            amax = k;
+        }
+    }
+    size_t i = ip_index(e->i, m, amin, amax);
+    size_t j = ip_index(e->j, m, amin, amax);
+    if (i == j) {
+        j = (i + 1) % m;
+    }
+    const unsigned xs = e->x & 15;
+    switch (e->kind) {
+    case E_MOVE: {
+        uint64_t d;
+        switch (e->sub) {
+        case 0: /* element i drops below the old minimum */
+            d = v[i] - mn + 1 + xs;
+            break;
+        case 1: /* element j rises above the old maximum */
+            d = mx - v[j] + 1 + xs;
+            break;
+        case 2:
+            d = v[i];
+            break;
+        case 3:
+            d = e->d;
+            break;
+        case 4:
+            d = 1 + xs;
+            break;
+        case 5: /* stays inside the range: percentile / outlier count move */
+            d = (v[i] - mn) / 2 + 1;
+            break;
+        case 6:
+            d = 1ULL << (bitlen64(mx - mn) & 63);
+            break;
+        default:
+            d = 1ULL << (8 * (1 + e->x % 7));
+            break;
+        }
+        if (d == 0) {
+            d = 1;
+        }
+        v[i] -= d;
+        v[j] += d;
+        break;
+    }
+    case E_SWAP: {
+        uint64_t t = v[i];
+        v[i] = v[j];
+        v[j] = t;
+        break;
+    }
+    case E_ROTATE: {
+        size_t k;
+        switch (e->sub & 3) {
+        case 0:
+            k = 1;
+            break;
+        case 1:
+            k = m - 1;
+            break;
+        case 2:
+            k = m / 2;
+            break;
+        default:
+            k = 1 + i % (m - 1);
+            break;
+        }
+        ip_reverse(v, 0, k);
+        ip_reverse(v, k, m);
+        ip_reverse(v, 0, m);
+        break;
+    }
+    case E_REVERSE:
+        if ((e->sub & 1) == 0) {
+            ip_reverse(v, 0, m);
+        } else {
+            ip_reverse(v, i < j ? i : j, (i < j ? j : i) + 1);
+        }
+        break;
+    case E_XORFLIP: {
+        unsigned b;
+        switch (e->sub) {
+        case 0:
+            b = 0;
+            break;
+        case 1:
+            b = mx ? bitlen64(mx) - 1 : 0;
+            break;
+        case 2:
+            b = bitlen64(mx) & 63;
+            break;
+        case 3:
+            b = e->x & 63;
+            break;
+        case 4:
+            b = 7;
+            break;
+        case 5:
+            b = 8;
+            break;
+        case 6:
+            b = 31 + (e->x & 1);
+            break;
+        default:
+            b = 63;
+            break;
+        }
+        v[i] ^= 1ULL << b;
+        v[j] ^= 1ULL << b;
+        break;
+    }
+    case E_INTERIOR: {
+        if (m < 3) {
+            break;
+        }
+        size_t ii = 1 + i % (m - 2), jj = 1 + j % (m - 2);
+        if (ii == jj && m >= 4) {
+            jj = 1 + ii % (m - 2);
+        }
+        switch (e->sub) {
+        case 0:
+            v[ii] += 1 + xs;
+            break;
+        case 1:
+            if (ii != jj) {
+                uint64_t d = v[ii] - mn + 1 + xs;
+                v[ii] -= d;
+                v[jj] += d;
+            } else {
+                v[ii] = mn - 1 - xs;
+            }
+            break;
+        case 2:
+            v[ii] = e->d;
+            break;
+        case 3:
+            v[ii] ^= e->d | 1;
+            break;
+        case 4: {
+            uint64_t t = v[ii];
+            v[ii] = v[jj];
+            v[jj] = t;
+            break;
+        }
+        case 5:
+            v[ii] ^= 1ULL << (e->x & 63);
+            if (ii != jj) {
+                v[jj] ^= 1ULL << (e->x & 63);
+            }
+            break;
+        case 6:
+            v[ii] = mn - 1 - xs;
+            break;
+        default:
+            v[ii] = mx + 1 + xs;
+            break;
+        }
+        break;
+    }
+    case E_SUMXOR:
+        if (e->sub & 4) {
+            for (size_t k = 0; k + 1 < m; k += 2) {
+                ip_pair(&v[k], &v[k + 1], e->sub, e->d);
+            }
+            if (m & 1) {
+                ip_pair(&v[m - 1], &v[0], e->sub, e->d);
+            }
+        } else {
+            ip_pair(&v[i], &v[j], e->sub, e->d);
+        }
+        break;
+    default:
+        break;
+    }
+}
+
+static void parse_ipstep(vf_rd *r, ipstep *s) {
+    memset(s, 0, sizeof(*s));
+    s->p1 = vf_u8(r);
+    s->p2 = vf_u8(r);
+    uint8_t b = vf_u8(r);
+    s->cs = b & 3;
+    s->ne = 1 + ((b >> 2) & 3);
+    for (unsigned k = 0; k < s->ne; k++) {
+        ipedit *e = &s->e[k];
+        uint8_t op = vf_u8(r);
+        e->kind = op & 7;
+        e->call = (op >> 3) & 1;
+        e->restore = (op >> 4) & 1;
+        e->sub = op >> 5;
+        e->i = vf_u16(r);
+        e->j = vf_u16(r);
+        e->x = vf_u8(r);
+        if ((e->kind == E_MOVE && e->sub == 3) ||
+            (e->kind == E_INTERIOR && (e->sub == 2 || e->sub == 3)) ||
+            (e->kind == E_SUMXOR && (e->sub & 3) == 2)) {
+            e->d = vf_u64(r);
+        }
+    }
+}
+
+/* type of the buffer the library reads its input from */
+static unsigned kind_inclass(unsigned k) {
+    switch (k) {
+    case K_BP128_32:
+    case K_BP128_D32:
+        return 1;
+    case K_FLOAT:
+    case K_FLOAT_AUTO:
+        return 2;
+    case K_BITMAP:
+        return 3;
+    default:
+        return kind_is_scalar(k) ? 4 : 0;
+    }
+}
+
+typedef struct ipctx {
+    vf_report *rep;
+    tgt *T;
+    const uint64_t *orig; /* T->n + 1 elements */
+    const obs *A;         /* execution (a) */
+    const char *paintdesc;
+    unsigned budget;      /* in-place calls left in this execution */
+    unsigned ncall;       /* in-place calls made in this execution */
+    int classes;          /* count class counters (execution (b) only) */
+    int observe_first;    /* copy oracle on the first in-place call */
+    int observe_last;     /* ... on the final call of step `last_step` */
+    uint64_t sum0, xor0;
+} ipctx;
+
+static uint64_t first_enc_len(const obs *o) {
+    for (unsigned i = 0; i < o->k; i++) {
+        size_t l = strlen(o->it[i].name);
+        if (l >= 8 && strcmp(o->it[i].name + l - 8, ".enc.len") == 0) {
+            return o->it[i].v;
+        }
+    }
+    return UINT64_MAX;
+}
+
+static void ip_classes(const ipctx *c, const tgt *E, const obs *probe) {
+    const tgt *T = c->T;
+    char cls[64];
+    vf_class("hist.inplace.call");
+    snprintf(cls, sizeof(cls), "hist.inplace.target.%s", kind_name[T->kind]);
+    vf_class(cls);
+    if (E->kind != T->kind) {
+        vf_class("hist.inplace.codec.other");
+    } else if (E->p1 != T->p1 || E->p2 != T->p2) {
+        vf_class("hist.inplace.codec.ownOtherParams");
+    } else {
+        vf_class("hist.inplace.codec.own");
+    }
+    if (E->n != T->n) {
+        vf_class(E->n < T->n ? "hist.inplace.view.shorter"
+                             : "hist.inplace.view.longer");
+        return;
+    }
+    const size_t n = T->n;
+    if (memcmp(E->v, c->orig, n * sizeof(uint64_t)) == 0) {
+        vf_class("hist.inplace.contents.unchanged");
+        return;
+    }
+    uint64_t sum = 0, xr = 0, mn = E->v[0], mx = E->v[0], mn0 = c->orig[0],
+             mx0 = c->orig[0];
+    size_t changed = 0;
+    for (size_t k = 0; k < n; k++) {
+        sum += E->v[k];
+        xr ^= E->v[k];
+        mn = E->v[k] < mn ? E->v[k] : mn;
+        mx = E->v[k] > mx ? E->v[k] : mx;
+        mn0 = c->orig[k] < mn0 ? c->orig[k] : mn0;
+        mx0 = c->orig[k] > mx0 ? c->orig[k] : mx0;
+        changed += E->v[k] != c->orig[k];
+    }
+    const int ks = sum == c->sum0, kx = xr == c->xor0;
+    const int kfl = E->v[0] == c->orig[0] && E->v[n - 1] == c->orig[n - 1];
+    const int moved = mn != mn0 || mx != mx0;
+    if (ks) {
+        vf_class("hist.inplace.sumKept");
+    }
+    if (kx) {
+        vf_class("hist.inplace.xorKept");
+    }
+    if (ks && kx) {
+        vf_class("hist.inplace.sumAndXorKept");
+    }
+    if (kfl) {
+        vf_class("hist.inplace.firstLastKept");
+    }
+    if (moved) {
+        vf_class("hist.inplace.minOrMaxMoved");
+    }
+    if (ks && moved) {
+        vf_class("hist.inplace.sumKept.minOrMaxMoved");
+    }
+    if (kx && moved) {
+        vf_class("hist.inplace.xorKept.minOrMaxMoved");
+    }
+    if (kfl && moved) {
+        vf_class("hist.inplace.firstLastKept.minOrMaxMoved");
+    }
+    if (ks && kx && changed == n) {
+        vf_class("hist.inplace.sumAndXorKept.everyElementChanged");
+    }
+    if (ks && n >= 64) {
+        vf_class("hist.inplace.sumKept.len>=64");
+    }
+    if (probe && c->A) {
+        uint64_t l = first_enc_len(probe), l0 = first_enc_len(c->A);
+        if (l != UINT64_MAX && l == l0) {
+            vf_class("hist.inplace.encodedSameLength");
+        } else if (l != UINT64_MAX) {
+            vf_class("hist.inplace.encodedOtherLength");
+        }
+    }
+}
+
+/* the copy oracle: the call that was just observed on the target's own buffers
+ * (edited contents E, result `in`) is repeated on buffers the library has not
+ * seen in this case with byte-identical arguments; "repeating a call ... in a
+ * fresh process gives identical results" does not let a result depend on the
+ * address, so the two must agree.  The in-place call comes first: the repeat
+ * must not be what evicts a stale entry. */
+static void ip_copy_oracle(ipctx *c, const ex *xh, const tgt *E, const obs *in,
+                           const char *what) {
+    tgt F = *E;
+    F.v = (uint64_t *)malloc((c->T->n + 1) * sizeof(uint64_t));
+    F.enc = (uint8_t *)malloc(E->enc_cap);
+    F.aux = malloc((c->T->n + 2) * sizeof(uint64_t));
+    if (!F.v || !F.enc || !F.aux) {
+        abort();
+    }
+    memcpy(F.v, E->v, (c->T->n + 1) * sizeof(uint64_t));
+    memset(F.aux, 0, (c->T->n + 2) * sizeof(uint64_t));
+    obs *R = (obs *)calloc(1, sizeof(obs));
+    if (!R) {
+        abort();
+    }
+    ex x = {R, xh->paint, xh->word};
+    run_target(&x, &F);
+    vf_evals(1);
+    if (c->classes) {
+        vf_class("hist.inplace.copyOracle");
+    }
+    if (in->dropped || R->dropped) {
+        vf_fail(c->rep, "harness", "internal", "observation table too small");
+    } else {
+        char which[200];
+        snprintf(which, sizeof(which),
+                 "on the target's own buffers after the in-place edits {%s} "
+                 "(same address as execution (a), other contents)",
+                 what);
+        obs_compare2(c->rep, &F, R, in,
+                     "on a fresh copy of the same contents", which,
+                     c->paintdesc);
+    }
+    obs_free(R);
+    free(R);
+    free(F.v);
+    free(F.enc);
+    free(F.aux);
+}
+
+static void run_inplace(ipctx *c, const ex *xh, const ipstep *s, unsigned hk,
+                        int is_last_step) {
+    tgt *T = c->T;
+    const size_t n = T->n;
+    size_t m = n;
+    char what[120];
+    size_t wl = 0;
+    what[0] = 0;
+    for (unsigned k = 0; k < s->ne && !c->rep->violated; k++) {
+        const ipedit *e = &s->e[k];
+        const int final = k + 1 == s->ne;
+        if (e->restore) {
+            memcpy(T->v, c->orig, (n + 1) * sizeof(uint64_t));
+            wl = 0;
+            what[0] = 0;
+        }
+        if (e->kind == E_VIEW) {
+            m = (e->sub % 3) == 0 ? (n >= 2 ? n - 1 : n)
+                : (e->sub % 3) == 1 ? n + 1
+                                    : n;
+        } else {
+            ip_apply(T->v, m, e);
+        }
+        if (wl < sizeof(what) - 1) {
+            int w = snprintf(what + wl, sizeof(what) - wl, "%s%s.%u", wl ? "," : "",
+                             edit_name[e->kind], e->sub);
+            wl += w > 0 ? (size_t)w : 0;
+            if (wl >= sizeof(what)) {
+                wl = sizeof(what) - 1;
+            }
+        }
+        if (c->classes) {
+            char cls[48];
+            snprintf(cls, sizeof(cls), "hist.inplace.edit.%s", edit_name[e->kind]);
+            vf_class(cls);
+        }
+        if (!(final || e->call)) {
+            continue;
+        }
+        if (c->budget == 0) {
+            break;
+        }
+        c->budget--;
+        /* the call */
+        tgt E = *T;
+        E.n = m;
+        if (s->cs == 2) {
+            E.p1 = s->p1;
+            E.p2 = s->p2;
+        } else if (s->cs == 3 && kind_inclass(hk) == kind_inclass(T->kind) &&
+                   m <= kind_maxlen(hk, 15, 0) &&
+                   !((hk == K_ADAPT_AUTO || hk == K_ADAPT_FORCED ||
+                      hk == K_ADAPT_ANALYZE) &&
+                     m > 2300)) {
+            E.kind = hk;
+            E.p1 = s->p1;
+            E.p2 = s->p2;
+        }
+        conform(E.v, (E.kind == K_GROUP && m > 64) ? 64 : m, kind_flags(E.kind));
+        snprintf(E.desc, sizeof(E.desc), "%.200s <in-place: %s n=%zu {%s}>", T->desc,
+                 kind_name[E.kind], m, what);
+        const int first_call = c->ncall == 0;
+        c->ncall++;
+        const int observe = !getenv("VF_C15_NOCOPY") && ((c->observe_first && first_call) ||
+                            (c->observe_last && is_last_step && final)); /*TMP*/
+        obs *P = (obs *)calloc(1, sizeof(obs));
+        if (!P) {
+            abort();
+        }
+        P->light = !observe;
+        ex x = {P, xh->paint, xh->word};
+        run_target(&x, &E);
+        if (c->classes) {
+            ip_classes(c, &E, P);
+        }
+        if (observe) {
+            ip_copy_oracle(c, xh, &E, P, what);
+        }
+        obs_free(P);
+        free(P);
+    }
+    memcpy(T->v, c->orig, (n + 1) * sizeof(uint64_t));
+}
+
 /* -------------------------------------------------------------------- case */
 #define MAXHIST 6
 
 typedef struct hstep {
     tgt t;
     unsigned amode;
+    int inplace;
+    unsigned hk;
+    ipstep ip;
 } hstep;
+
+static void run_history(ipctx *c, const ex *xh, hstep *hs, unsigned nh,
+                        int variant, int last_ip) {
+    /* variant -1: H as generated; 0: reversed; 1: rotated; 2: first half */
+    for (unsigned i = 0; i < nh && !c->rep->violated; i++) {
+        unsigned j = i;
+        if (variant == 0) {
+            j = nh - 1 - i;
+        } else if (variant == 1) {
+            j = (i + 1) % nh;
+        } else if (variant == 2 && i >= (nh + 1) / 2) {
+            break;
+        }
+        if (hs[j].inplace) {
+            run_inplace(c, xh, &hs[j].ip, hs[j].hk, (int)j == last_ip);
+        } else {
+            ex x = *xh;
+            run_target(&x, &hs[j].t);
+        }
+    }
+}
 
 void vf_run(vf_rd *r, vf_report *rep) {
     unsigned kind = kind_from_byte(vf_u8(r));
@@ -1361,10 +1994,25 @@ void vf_run(vf_rd *r, vf_report *rep) {
     }
 
     hstep hs[MAXHIST];
+    unsigned nip = 0;
+    int last_ip = -1;
     for (unsigned i = 0; i < nh; i++) {
         unsigned hk = kind_from_byte(vf_u8(r));
-        hs[i].amode = vf_u8(r) % 3;
-        parse_args(r, &hs[i].t, hk, 1);
+        uint8_t mb = vf_u8(r);
+        hs[i].amode = mb % 3;
+        hs[i].hk = hk;
+        /* one step in three works on the target's own buffers */
+        hs[i].inplace = !kind_is_scalar(kind) && (mb / 3) % 3 == 1;
+        if (hs[i].inplace) {
+            memset(&hs[i].t, 0, sizeof(hs[i].t));
+            hs[i].t.kind = hk;
+            hs[i].amode = 0;
+            parse_ipstep(r, &hs[i].ip);
+            nip++;
+            last_ip = (int)i;
+        } else {
+            parse_args(r, &hs[i].t, hk, 1);
+        }
     }
     tgt T;
     parse_args(r, &T, kind, 0);
@@ -1373,6 +2021,9 @@ void vf_run(vf_rd *r, vf_report *rep) {
      * the stale-metadata shortcuts key on) */
     for (unsigned i = 0; i < nh; i++) {
         tgt *h = &hs[i].t;
+        if (hs[i].inplace) {
+            continue;
+        }
         if (kind_is_scalar(h->kind) || hs[i].amode == 0 || T.n == 0 ||
             T.n > 5000) {
             hs[i].amode = 0;
@@ -1394,6 +2045,12 @@ void vf_run(vf_rd *r, vf_report *rep) {
         h->v = nv;
         h->n = n;
     }
+    for (unsigned i = 0; i < nh; i++) {
+        if (!hs[i].inplace) {
+            tgt_prepare(&hs[i].t);
+        }
+    }
+    tgt_prepare(&T);
 
     const uint64_t count = kind_is_scalar(kind) ? T.nsv : T.n;
     const uint64_t wa = paint_word(&pa, count, 1);
@@ -1405,6 +2062,17 @@ void vf_run(vf_rd *r, vf_report *rep) {
              (unsigned long long)wb, heapfill);
     vf_desc(rep, "T={%s} %s variant=%u H=[", T.desc, paintdesc, variant);
     for (unsigned i = 0; i < nh; i++) {
+        if (hs[i].inplace) {
+            const ipstep *s = &hs[i].ip;
+            vf_desc(rep, "%sinplace:c%u(", i ? "," : "", s->cs);
+            for (unsigned k = 0; k < s->ne; k++) {
+                vf_desc(rep, "%s%s%s.%u%s", k ? " " : "",
+                        s->e[k].restore ? "R:" : "", edit_name[s->e[k].kind],
+                        s->e[k].sub, s->e[k].call ? "!" : "");
+            }
+            vf_desc(rep, ")");
+            continue;
+        }
         vf_desc(rep, "%s%s/n=%zu/a%u", i ? "," : "", kind_name[hs[i].t.kind],
                 kind_is_scalar(hs[i].t.kind) ? (size_t)hs[i].t.nsv : hs[i].t.n,
                 hs[i].amode);
@@ -1423,10 +2091,20 @@ void vf_run(vf_rd *r, vf_report *rep) {
         snprintf(cls, sizeof(cls), "history.len%u", nh);
         vf_class(cls);
         for (unsigned i = 0; i < nh; i++) {
+            if (hs[i].inplace) {
+                vf_class("hist.inplace.step");
+                continue;
+            }
             snprintf(cls, sizeof(cls), "history.api.%s", kind_name[hs[i].t.kind]);
             vf_class(cls);
             if (hs[i].amode) {
                 vf_class("history.sameCountAsTarget");
+            }
+        }
+        if (nip) {
+            vf_class("hist.inplace.case");
+            if (nip < nh) {
+                vf_class("hist.inplace.mixedWithOtherSteps");
             }
         }
         if (!kind_is_scalar(kind)) {
@@ -1440,6 +2118,11 @@ void vf_run(vf_rd *r, vf_report *rep) {
         uint64_t h = vf_mix(kind, T.p1 | ((uint64_t)T.p2 << 8));
         h = vf_hash_bytes(h, T.v, T.n * sizeof(uint64_t));
         for (unsigned i = 0; i < nh; i++) {
+            if (hs[i].inplace) {
+                h = vf_mix(h, 0x1b0000u | hs[i].hk | ((uint64_t)hs[i].ip.cs << 8));
+                h = vf_hash_bytes(h, hs[i].ip.e, sizeof(ipedit) * hs[i].ip.ne);
+                continue;
+            }
             h = vf_mix(h, hs[i].t.kind | ((uint64_t)hs[i].t.n << 8) |
                               ((uint64_t)hs[i].amode << 40));
         }
@@ -1454,6 +2137,28 @@ void vf_run(vf_rd *r, vf_report *rep) {
     }
     obs *B = A + 1, *C = A + 2;
 
+    /* in-place steps: the original contents, restored after every step */
+    uint64_t *orig = NULL;
+    ipctx ic;
+    memset(&ic, 0, sizeof(ic));
+    ic.rep = rep;
+    ic.T = &T;
+    ic.A = A;
+    ic.paintdesc = paintdesc;
+    if (nip) {
+        orig = (uint64_t *)malloc((T.n + 1) * sizeof(uint64_t));
+        if (!orig) {
+            abort();
+        }
+        memcpy(orig, T.v, (T.n + 1) * sizeof(uint64_t));
+        ic.orig = orig;
+        for (size_t k = 0; k < T.n; k++) {
+            ic.sum0 += T.v[k];
+            ic.xor0 ^= T.v[k];
+        }
+    }
+    const unsigned ip_budget = T.n <= 300 ? 12 : T.n <= 4200 ? 4 : 2;
+
     /* (a) first thing: zeroed stack window, zero heap residue */
     {
         ex x = {A, 1, 0};
@@ -1467,46 +2172,49 @@ void vf_run(vf_rd *r, vf_report *rep) {
         ex x = {B, pa.sel != 2, wa};
         vf_alloc_fill(heapfill);
         heap_residue(heapfill, T.n);
-        for (unsigned i = 0; i < nh; i++) {
-            run_target(&xh, &hs[i].t);
+        ic.budget = ip_budget;
+        ic.ncall = 0;
+        ic.classes = 1;
+        ic.observe_first = 1;
+        ic.observe_last = 0;
+        run_history(&ic, &xh, hs, nh, -1, last_ip);
+        if (!rep->violated) {
+            run_target(&x, &T);
         }
-        run_target(&x, &T);
     }
     /* (c) after H' (reversed / rotated / shorter prefix), paint B */
-    {
+    if (!rep->violated) {
         ex xh = {NULL, pb.sel != 2, wb};
         ex x = {C, pb.sel != 2, wb};
         vf_alloc_fill((uint8_t)~heapfill);
         heap_residue((uint8_t)~heapfill, T.n);
-        for (unsigned i = 0; i < nh; i++) {
-            unsigned j;
-            if (variant == 0) {
-                j = nh - 1 - i;
-            } else if (variant == 1) {
-                j = (i + 1) % nh;
-            } else {
-                if (i >= (nh + 1) / 2) {
-                    break;
-                }
-                j = i;
-            }
-            run_target(&xh, &hs[j].t);
+        ic.budget = ip_budget;
+        ic.ncall = 0;
+        ic.classes = 0;
+        ic.observe_first = 0;
+        ic.observe_last = T.n <= 4200;
+        run_history(&ic, &xh, hs, nh, (int)variant, last_ip);
+        if (!rep->violated) {
+            run_target(&x, &T);
         }
-        run_target(&x, &T);
     }
     vf_alloc_fill(-1);
 
-    if (A->dropped || B->dropped || C->dropped) {
+    if (rep->violated) {
+        /* reported by the copy oracle of an in-place step */
+    } else if (A->dropped || B->dropped || C->dropped) {
         vf_fail(rep, "harness", "internal", "observation table too small");
-    } else if (!obs_compare(rep, &T, A, B, "(b) after history H with paint A",
+    } else if (!obs_compare(rep, &T, A, B,
+                            "in execution (b) after history H with paint A",
                             paintdesc)) {
-        obs_compare(rep, &T, A, C, "(c) after history H' with paint B",
-                    paintdesc);
+        obs_compare(rep, &T, A, C,
+                    "in execution (c) after history H' with paint B", paintdesc);
     }
     obs_free(A);
     obs_free(B);
     obs_free(C);
     free(A);
+    free(orig);
     for (unsigned i = 0; i < nh; i++) {
         tgt_free(&hs[i].t);
     }
